@@ -273,16 +273,17 @@ String Xml::Private::escapeString(const String& str)
   for(const char* i = str, * end = i + str.length(); i < end; ++i)
   {
     c = *i;
-    if((c & 0xc0) || (c & 0xe0) == 0) // c >= 64 || c < 32
+    if(((c & 0xc0) || (c & 0xe0) == 0) && c != '\n' && c != '\r') // c >= 64 || c < 32
     {
       *(dest++) = c;
       continue;
     }
     
     const char* escapeChar = String::find(escapeChars, c);
-    if(escapeChar)
+    if(escapeChar || c == '\n' || c == '\r')
     {
-      const String& escapeString = escapeStrings[escapeChar - escapeChars];
+      static const String lineFeed("#10"), carriageReturn("#13"); // a raw line break is rejected inside an attribute value
+      const String& escapeString = escapeChar ? escapeStrings[escapeChar - escapeChars] : c == '\n' ? lineFeed : carriageReturn;
       result.resize(dest - destStart);
       result.reserve(result.length() + escapeString.length() + 1 + (end - i));
       destStart = result;
